@@ -336,3 +336,24 @@ CHECKS["C06"] = {
         "all parent pairs of four small grammars",
     ],
 }
+
+CHECKS["C07"] = {
+    "title": "genotype -> phenotype mapping is a pure function of the genotype",
+    "run": std_run,
+    "generators": [{"module": "Gen_Map", "cfg": "Gen_Map.cfg", "cfg_thorough": "Gen_Map_thorough.cfg",
+                    "env": "GEN_OUT", "out": "gen_map.json", "arg": "--gen"}],
+    "models": [
+        {"module": "MC_C07", "cfg": "MC_C07_FALSE_pure.cfg", "workers": 4},
+        {"module": "MC_C07", "cfg": "MC_C07_TRUE_pure.cfg", "workers": 4},
+        {"module": "MC_C07", "cfg": "MC_C07_FALSE_impure.cfg", "workers": 4, "expect_violation": "MapStable is violated"},
+    ],
+    "drivers": [{"module": "harness.drv_c07", "trace": "Trace_C07"}],
+    "shards": {"quick": 1, "thorough": 8},
+    "rule": "one trace per (grammar, representation x decider, TLC-generated interleaving of create / map / draw / "
+            "mutate / crossover); every mapping call is an event with the projected program, the number of raw draws "
+            "on the shared source before and after, and the genotype before and after",
+    "assumptions": [
+        "the shared source is wrapped by a counting RandomSource (raw draws = randint / random_float / normalvariate calls)",
+        "interleavings are generated by TLC (all of length <= 2 plus a random sample of longer ones)",
+    ],
+}
